@@ -14,7 +14,8 @@
    operators AND with encoding/json as the independent reference the statement names. *)
 EXTENDS Naturals, Sequences, FiniteSets, TLC, Json
 
-CONSTANTS Keys, MaxDepth, MaxStr, Emit, Part
+CONSTANTS Keys, MaxDepth, MaxStr, Emit, Part,
+          MaxDeep     \* Part = "deep": spines of this many levels with a sibling (none / leaf / sub-map) at every level
 Leaves == {"x", "y", "n1", "skip"}
 \* A nested map is a NODE: [leaf, kids]; a leaf has kids = <<>>, an inner map has leaf = "" and kids = a non-empty
 \* function from keys to nodes (uniformly typed records, so TLC can put leaves and sub-maps in one set).
@@ -23,6 +24,12 @@ RECURSIVE Nodes(_)
 Nodes(d) == { LeafNode(l) : l \in Leaves } \cup
             (IF d = 0 THEN {} ELSE { [leaf |-> "", kids |-> f] : f \in UNION { [S -> Nodes(d - 1)] : S \in (SUBSET Keys) \ {{}} } })
 Maps(d) == { n \in Nodes(d) : n.leaf = "" }
+\* deep maps: a spine a.a.a...x of d levels; at every level the spine node may have a sibling b that is a leaf or a
+\* small sub-map -- path lengths well beyond the exhaustive depth, where slices of key segments get re-used
+SibChoices == { << >>, ("b" :> LeafNode("y")), ("b" :> [leaf |-> "", kids |-> ("a" :> LeafNode("n1") @@ "b" :> LeafNode("x"))]) }
+RECURSIVE Spine(_)
+Spine(d) == IF d = 0 THEN { LeafNode("x") }
+            ELSE UNION { { [leaf |-> "", kids |-> ("a" :> t) @@ sib] : sib \in SibChoices } : t \in Spine(d - 1) }
 IsLeaf(n) == n.leaf # ""
 \* flat map: function from key paths (sequences) to leaves
 RECURSIVE FlatPairs(_, _)
@@ -52,14 +59,16 @@ Unescape(e) == IF e = <<>> THEN <<>> ELSE
 ValidLiteral(e) == \A i \in 1..Len(e) : e[i] \notin {"ctl"} /\ (e[i] \in {"quote", "bslash"} => (i > 1 /\ e[i-1] = "E"))
 
 VARIABLES m, s
-Init == (IF Part = "maps" THEN m \in Maps(MaxDepth) /\ s = <<>> ELSE m \in Maps(1) /\ s \in Strs)
+Init == (IF Part = "maps" THEN m \in Maps(MaxDepth) /\ s = <<>>
+         ELSE IF Part = "deep" THEN m \in UNION { Spine(d) : d \in 2..MaxDeep } /\ s = <<>>
+         ELSE m \in Maps(1) /\ s \in Strs)
 Next == UNCHANGED <<m, s>>
 Spec == Init /\ [][Next]_<<m, s>>
 Inverse1 == Rebuild(Flatten(m)) = m
 Inverse2 == PrefixFree(Flatten(m)) /\ Flatten(Rebuild(Flatten(m))) = Flatten(m)
 EscapeRoundTrip == Unescape(Escape(s)) = s /\ ValidLiteral(Escape(s))
 FlatJson(f) == { [path |-> p, leaf |-> f[p]] : p \in DOMAIN f }
-EmitCase == Emit => PrintT(IF Part = "maps" THEN ToJson([k |-> "pm", nested |-> m, flat |-> FlatJson(Flatten(m)), readable |-> FlatJson(Readable(Flatten(m)))])
+EmitCase == Emit => PrintT(IF Part \in {"maps", "deep"} THEN ToJson([k |-> "pm", nested |-> m, flat |-> FlatJson(Flatten(m)), readable |-> FlatJson(Readable(Flatten(m)))])
                           ELSE ToJson([k |-> "ps", str |-> s, escaped |-> Escape(s)]))
 Inv == Inverse1 /\ Inverse2 /\ EscapeRoundTrip /\ EmitCase
 =============================================================================
